@@ -12,10 +12,16 @@
 // script lines (TSV):
 //   expect <scope> <fn> <n> <obj> <ign> <ins> <outs> <ret>     ins: name=ENC;...   outs: name=ty:hex;...   ret: ENC or -
 //   begin <scope> <fn> | param <scope> <name> <ENC> | outparam <scope> <name> <ty> | object <scope> <id>
+//       object identities (<obj> of expect, <id> of object): 0 = no object (expect only), -1 = the null pointer, 1..7 = live objects
 //   ret <scope> <getter> <call|support> [<default ENC>] | left | check | clear | disable | enable | ignoreothers | strict <scope>
 //   setdata <scope> <name> <ENC> [const|mut]   (objects: setDataConstObject / setDataObject) | getdata <scope> <name>
 //   installcmp <scope> <type name> <whole|first|never|always|less> | installcpy <scope> <type name> <plain|inv> | removeall <scope>
-//   end        (end of the test: verdict r, vcount = number of failures the test recorded, reps = their categories in order)
+//   failcheck  (modes cpp / c: a check of the test itself - LONGS_EQUAL - fails at this point of the body)
+//   teardown   (modes cpp / c: the body of the test ends here; the lines up to `end' run in the test's teardown - also when the body
+//               was left after a failure.  A step that ran although the test had already failed and added no failure is logged
+//               with r "muted" and no observations; a step that added a failure is logged with that failure's category)
+//   end        (end of the test: verdict r, vcount = number of failures the test recorded, reps = their categories in order,
+//               texts = their messages in order)
 //   reset      (next execution)
 // value encodings (ENC) as in mockvalue.cpp:  I|type|neg|h3|h2|h1|h0  B|0/1  P|v/c/f|id  S|hex  M|hex  D|k|neg|q|tk|tneg|tq  O|Type|a,b[|id]
 // objects of user types are records of two ints (a, b).  id (default 0) says WHICH object holds that content: 0 = an object of
@@ -55,6 +61,7 @@ static const Pair* pair_of(const void* p) { return (p >= (const void*) &g_pairs[
 static void fn1() {}
 static void fn2() {}
 typedef void (*fnptr)();
+static void* object_of(int id) { return id < 0 ? (void*) NULL : (void*) &g_objects[id & 7]; }     // -1: the null pointer
 static void* ptr_of(int id) { return id ? (void*) &g_pool[id & 7] : NULL; }
 static fnptr fptr_of(int id) { return id == 0 ? (fnptr) NULL : (id == 1 ? fn1 : fn2); }
 static int id_of_ptr(const void* p) { if (!p) return 0; for (int i = 1; i < 8; i++) if (p == &g_pool[i]) return i; return -1; }
@@ -187,7 +194,9 @@ struct Step {
     std::string echo;   // the call, as JSON fields
     std::string obs;    // observations, as JSON fields (filled when the step completes)
     bool done;
-    Step() : n(0), obj(0), ign(false), done(false) {}
+    bool started, muted;             // fixture modes: the step was entered; the test had already failed when it was
+    size_t fails_before, fails_after;   // fixture modes: failures the test had recorded before / after the step
+    Step() : n(0), obj(0), ign(false), done(false), started(false), muted(false), fails_before(0), fails_after(0) {}
 };
 static std::vector<Step> g_steps;       // the current execution
 static volatile size_t g_at;            // step being executed
@@ -591,7 +600,7 @@ static void exec_step(Step& st)
             MockSupport& m = cxx(st.scope);
             if (st.n == 0 && bare) { m.expectNoCall(st.fn.c_str()); return; }
             MockExpectedCall& e = st.n == 1 ? m.expectOneCall(st.fn.c_str()) : m.expectNCalls((unsigned) st.n, st.fn.c_str());
-            if (st.obj) e.onObject(&g_objects[st.obj & 7]);
+            if (st.obj) e.onObject(object_of(st.obj));
             for (size_t i = 0; i < st.ins.size(); i++) cxx_expect_param(e, st.ins[i].name, st.ins[i].v);
             for (size_t i = 0; i < st.outs.size(); i++) {
                 OutSpec& o = st.outs[i];
@@ -627,7 +636,7 @@ static void exec_step(Step& st)
         buf.assign(BUFLEN, FILL);
         if (!is_c()) { if (st.ty == "raw") rt.call->withOutputParameter(st.name.c_str(), &buf[0]); else rt.call->withOutputParameterOfType(st.ty.c_str(), st.name.c_str(), &buf[0]); }
     } else if (op == "object") {
-        if (!is_c()) rt.call->onObject(&g_objects[st.obj & 7]);
+        if (!is_c()) rt.call->onObject(object_of(st.obj));
     } else if (op == "ret") {
         std::string val; bool has = false;
         bool viaCall = st.ty == "call";
@@ -683,6 +692,8 @@ static void exec_step(Step& st)
                           break;
             }
         }
+    } else if (op == "failcheck") {
+        LONGS_EQUAL(4, 5);           // a check of the test itself, not of the mock
     } else if (op == "getdata") {
         std::string val;
         if (!is_c()) val = named_value_json(cxx(st.scope).getData(st.name.c_str()), false);
@@ -704,10 +715,13 @@ static void exec_step_c_call(Step& st)
     }
 }
 
+static TestTestingFixture* g_fx;       // modes cpp / c: the fixture whose test the scenario is
 static void run_one(Step& st)
 {
+    if (g_fx) { st.started = true; st.muted = UtestShell::getCurrent()->hasFailed(); st.fails_before = g_fx->getFailureCount(); }
     if (is_c() && (st.op == "begin" || st.op == "param" || st.op == "outparam")) exec_step_c_call(st);
     else exec_step(st);
+    if (g_fx) st.fails_after = g_fx->getFailureCount();
     st.done = true;
 }
 
@@ -736,9 +750,14 @@ static void log_line(const Step& st, const std::string& r, const std::string& te
 
 // ---- executions
 static size_t g_end;       // index of the "end" step (or g_steps.size())
+static size_t g_td;        // index of the "teardown" step (or g_end): the body is the steps before it, the teardown the steps from it on
 static void fixture_body()
 {
-    for (g_at = 0; g_at < g_end; g_at++) run_one(g_steps[g_at]);
+    for (g_at = 0; g_at < g_td; g_at++) run_one(g_steps[g_at]);
+}
+static void fixture_teardown()
+{
+    for (g_at = g_td; g_at < g_end; g_at++) run_one(g_steps[g_at]);
 }
 
 static std::string first_failure_text(const std::string& out)
@@ -770,6 +789,8 @@ static void run_execution()
 {
     g_end = g_steps.size();
     for (size_t i = 0; i < g_steps.size(); i++) if (g_steps[i].op == "end") { g_end = i; break; }
+    g_td = g_end;
+    for (size_t i = 0; i < g_end; i++) if (g_steps[i].op == "teardown") { g_td = i; break; }
     g_rt.clear();
     for (int i = 0; i < 8; i++) g_objects[i] = i;
     if (g_mode == "rec") {
@@ -778,6 +799,7 @@ static void run_execution()
         for (size_t i = 0; i < g_end; i++) {
             Step& st = g_steps[i];
             if (failed) { log_line(st, "skipped"); continue; }
+            if (st.op == "failcheck") { fprintf(g_out, "{\"op\":\"harness-error\",\"what\":\"failcheck needs a test: modes cpp / c\"}\n"); fflush(g_out); _exit(0); }
             g_rec.msgs.clear();
             run_one(st);
             if (!g_rec.msgs.empty()) {
@@ -811,26 +833,35 @@ static void run_execution()
         MockSupportPlugin plugin;
         fx.installPlugin(&plugin);
         fx.setTestFunction(fixture_body);
+        if (g_td < g_end) fx.setTeardown(fixture_teardown);
         g_at = 0;
+        g_fx = &fx;
         fx.runAllTests();
+        g_fx = NULL;
         failures = fx.getFailureCount();
         output = fx.getOutput().asCharString();
     }
     std::string text = first_failure_text(output);
     std::string why = failures ? category_of(text) : "ok";
-    size_t stopped = g_at;        // the step during which the test was left (== g_end if the body completed)
+    std::vector<std::string> texts = all_failure_texts(output);
     for (size_t i = 0; i < g_end; i++) {
         Step& st = g_steps[i];
-        if (st.done) log_line(st, "ok");
-        else if (i == stopped && failures) {
-            if (why.empty()) fprintf(g_out, "{\"op\":%s,\"repbad\":%s}\n", vh_jstr(st.op).c_str(), vh_jstr(text.substr(0, 200)).c_str());
-            else log_line(st, why, text);
+        // a step that was entered and did not complete was left through a failure: the one the test recorded next
+        if (st.done && st.fails_after == st.fails_before) log_line(st, st.muted ? "muted" : "ok");
+        else if (st.started) {
+            std::string mine = st.fails_before < texts.size() ? texts[st.fails_before] : std::string("");
+            std::string cat = category_of(mine);
+            if (cat.empty()) fprintf(g_out, "{\"op\":%s,\"repbad\":%s}\n", vh_jstr(st.op).c_str(), vh_jstr(mine.substr(0, 200)).c_str());
+            else log_line(st, cat, mine);
         } else log_line(st, "skipped");
     }
     if (g_end < g_steps.size()) {
+        std::string all = "[";
+        for (size_t i = 0; i < texts.size(); i++) all += std::string(i ? "," : "") + vh_jstr(message_of(texts[i]));
+        all += "]";
         if (failures && why.empty()) fprintf(g_out, "{\"op\":\"end\",\"repbad\":%s}\n", vh_jstr(text.substr(0, 200)).c_str());
-        else fprintf(g_out, "{\"op\":\"end\",\"mode\":%s,\"r\":%s,\"vcount\":%lu,\"reps\":%s,\"text\":%s}\n", vh_jstr(g_mode).c_str(), vh_jstr(why).c_str(), (unsigned long) failures,
-                     reps_json(all_failure_texts(output)).c_str(), vh_jstr(message_of(text)).c_str());
+        else fprintf(g_out, "{\"op\":\"end\",\"mode\":%s,\"r\":%s,\"vcount\":%lu,\"reps\":%s,\"text\":%s,\"texts\":%s}\n", vh_jstr(g_mode).c_str(), vh_jstr(why).c_str(), (unsigned long) failures,
+                     reps_json(texts).c_str(), vh_jstr(message_of(text)).c_str(), all.c_str());
         for (size_t i = g_end + 1; i < g_steps.size(); i++) log_line(g_steps[i], "skipped");
     }
     // whatever state the test left behind (the plugin has cleared the mock)
@@ -892,7 +923,7 @@ static bool parse_step(const std::vector<std::string>& f, Step& st)
         e = ",\"s\":" + vh_jstr(st.scope) + ",\"tn\":" + vh_jstr(st.name) + ",\"md\":" + vh_jstr(st.ty);
     } else if (op == "removeall" && f.size() >= 2) { st.scope = f[1]; e = ",\"s\":" + vh_jstr(st.scope);
     } else if (op == "getdata" && f.size() >= 3) { st.scope = f[1]; st.name = f[2]; e = ",\"s\":" + vh_jstr(st.scope) + ",\"k\":" + vh_jstr(st.name); }
-    else if (op == "left" || op == "check" || op == "clear" || op == "disable" || op == "enable" || op == "ignoreothers" || op == "end") {}
+    else if (op == "left" || op == "check" || op == "clear" || op == "disable" || op == "enable" || op == "ignoreothers" || op == "end" || op == "failcheck" || op == "teardown") {}
     else return false;
     st.echo = e;
     return true;
